@@ -58,6 +58,21 @@ Ecliptics == <<"黄道", "黑道">>
 SolarFestivals == <<"元旦", "三八妇女节", "植树节", "五一劳动节", "五四青年节", "六一儿童节", "建党节", "八一建军节", "教师节", "国庆节">>
 LunarFestivals == <<"春节", "元宵节", "龙头节", "上巳节", "清明节", "端午节", "七夕节", "中元节", "中秋节", "重阳节", "冬至节", "腊八节", "除夕">>
 
+LegalHolidays == <<"元旦节", "春节", "清明节", "劳动节", "端午节", "中秋节", "国庆节", "国庆中秋", "抗战胜利日">>
+FetusStems == <<"门", "碓磨", "厨灶", "仓库", "房床">>            \* by day stem mod 5
+FetusBranches == <<"碓", "厕", "炉", "门", "栖", "床">>            \* by day branch mod 6
+
+(* the daily foetus spirit: place (stem part + branch part, with the traditional contractions), then where it is:
+   inside the room ("房内" + direction) or outside (with "正" before a cardinal direction) *)
+FetusPlace(hs, eb) ==
+  LET raw == FetusStems[hs + 1] \o FetusBranches[eb + 1] IN
+  CASE raw = "门门" -> "占大门" [] raw = "碓磨碓" -> "占碓磨" [] raw = "房床床" -> "占房床"
+    [] hs = 0 -> "占" \o raw
+    [] OTHER -> raw
+Cardinal == {0, 2, 6, 8}      \* N, E, W, S in Luoshu order
+FetusDayName(hs, eb, side, dir) ==
+  FetusPlace(hs, eb) \o " " \o (IF side = 0 THEN "房内" ELSE "外" \o (IF dir \in Cardinal THEN "正" ELSE "")) \o Directions[dir + 1]
+
 (* the cycles whose whole name table the trace compares (id -> table) *)
 CycleTable(t) ==
   CASE t = "HeavenStem" -> Stems [] t = "EarthBranch" -> Branches [] t = "Zodiac" -> Zodiac [] t = "Element" -> Elements
@@ -126,9 +141,15 @@ Expect(t, f) ==
     [] t = "HideHeavenStemDay" -> <<Stems[f[1] + 1] \o Elements[f[2] + 1], Stems[f[1] + 1] \o Elements[f[2] + 1] \o Nth(f[3])>>
     [] t = "SolarFestival" -> <<SolarFestivals[f[4] + 1], SolarDayS(f[1], f[2], f[3]) \o " " \o SolarFestivals[f[4] + 1]>>
     [] t = "LunarFestival" -> <<LunarFestivals[f[4] + 1], LunarDayS(f[1], f[2], f[3]) \o " " \o LunarFestivals[f[4] + 1]>>
+    [] t = "DecadeFortune" -> <<Pillar(f[1]), Pillar(f[1])>>
+    [] t = "Fortune"       -> <<Pillar(f[1]), Pillar(f[1])>>
+    [] t = "HideHeavenStem" -> <<Stems[f[1] + 1], Stems[f[1] + 1]>>
+    [] t = "LegalHoliday"  -> <<LegalHolidays[f[5] + 1], SolarDayS(f[1], f[2], f[3]) \o " " \o LegalHolidays[f[5] + 1] \o "(" \o (IF f[4] = 1 THEN "班" ELSE "休") \o ")">>
+    [] t = "FetusDay"      -> LET s == FetusDayName(f[1], f[2], f[3], f[4]) IN <<s, s>>
+    [] t = "KitchenGodSteed" -> <<"灶马头", "灶马头">>
     [] OTHER -> <<>>
 
-KnownTypes == {"SolarYear", "SolarHalfYear", "SolarSeason", "SolarMonth", "SolarWeek", "SolarDay", "SolarTime", "SolarTerm", "SolarTermDay",
+KnownTypes == {"DecadeFortune", "Fortune", "HideHeavenStem", "LegalHoliday", "FetusDay", "KitchenGodSteed","SolarYear", "SolarHalfYear", "SolarSeason", "SolarMonth", "SolarWeek", "SolarDay", "SolarTime", "SolarTerm", "SolarTermDay",
   "LunarYear", "LunarMonth", "LunarWeek", "LunarDay", "LunarHour", "SixtyCycleYear", "SixtyCycleMonth", "SixtyCycleDay", "SixtyCycleHour",
   "EightChar", "NineDay", "DogDay", "PlumRainDay", "HideHeavenStemDay", "SolarFestival", "LunarFestival"}
 
@@ -145,5 +166,9 @@ InRange(t, f) ==
     [] t = "HideHeavenStemDay" -> f[1] \in 0..9 /\ f[2] \in 0..4
     [] t = "SolarFestival" -> f[4] \in 0..9
     [] t = "LunarFestival" -> f[1] \in 0..59 /\ f[2] \in -12..12 /\ f[2] # 0 /\ f[3] \in 1..30 /\ f[4] \in 0..12
+    [] t \in {"DecadeFortune", "Fortune"} -> f[1] \in 0..59
+    [] t = "HideHeavenStem" -> f[1] \in 0..9
+    [] t = "LegalHoliday" -> f[4] \in 0..1 /\ f[5] \in 0..8
+    [] t = "FetusDay" -> f[1] \in 0..4 /\ f[2] \in 0..5 /\ f[3] \in 0..1 /\ f[4] \in 0..8
     [] OTHER -> TRUE
 =============================================================================
